@@ -63,7 +63,7 @@ Proof.
   intros Hbar HF HI. unfold agree, spec_ok, agree_barrier, spec_barrier. rewrite Hbar.
   intros H. apply andb_true_iff in H. destruct H as [Ho H]. rewrite Ho. cbn [andb].
   repeat (apply andb_true_iff in H; destruct H as [H ?]).
-  apply zlist_eqb_eq' in H. rewrite H.
+  match goal with Hh : list_eqb Z.eqb (ob_hist c) _ = true |- _ => apply zlist_eqb_eq' in Hh; rewrite Hh end.
   assert (G : (model_granted c <= barrier_bound c)%nat).
   { unfold model_granted, barrier_bound. destruct (t_distinct c).
     - pose proof (grant_pool_bound (req_kind c) (zids 0 (length (t_reqs c))) (r_init (t_capF c) (t_capI c))) as B.
